@@ -35,8 +35,9 @@ TRUSTED = [
 ]
 PARTIAL = [
     "C14_task is proven for every Fused node accepted by the decidable checker fusedOK (nested groups at any position and "
-    "depth; a nested group must have the partition count of the enclosing one); that the Fused nodes the pass builds "
-    "satisfy fusedOK is established by running the checker on every real Fused node (family native_groups), not by proof",
+    "depth; a nested group must have the partition count of the enclosing one — a one-partition nested group in an "
+    "n-partition group is the open finding D60, witnessed by C14_task_counterexample); that the Fused nodes the pass builds "
+    "satisfy fusedOK (or have the D60 shape) is established by running the checker on every real Fused node, not by proof",
     "divisions/meta of Fused = those of exprs[0] is definitional in the model; tied by the families and the search",
     "C14_substitute (values of other consumers unchanged by the substitution) is not stated separately",
 ]
@@ -539,6 +540,19 @@ def fam_pass_real(ctx):
     return f
 
 
+def d60_shape(fused):
+    """open finding D60: a nested Fused member with ONE partition inside a Fused with several (any depth)"""
+    from dask_expr._expr import Fused
+
+    for m in fused.exprs:
+        if isinstance(m, Fused):
+            if m.npartitions == 1 and fused.npartitions > 1:
+                return True
+            if d60_shape(m):
+                return True
+    return False
+
+
 def _count_blockwise(expr):
     from dask_expr._expr import is_valid_blockwise_op
 
@@ -597,7 +611,8 @@ def fam_native(ctx):
             for e in pf.exprs:
                 if isinstance(e, Fused):
                     reqs.append(f"fusion check dag={pf.text} node={pf.id(e)}")
-                    want.append("OK")
+                    # open finding D60: the checker must reject a one-partition nested group in an n-partition group
+                    want.append("FAIL" if d60_shape(e) else "OK")
                     inputs.append({"case": str(label), "check": "fused", "plan": pf.text, "node": pf.id(e)})
     model = drive(reqs)
     f.compare(inputs, want, model)
@@ -816,6 +831,19 @@ def compare_fuse(expr, twice=False, noindex=False):
     # a join / reset_index renumbers the rows: with an unspecified row order (disk shuffle) the index labels
     # are unspecified too.  Deterministic plans are compared exactly.
     noindex = unordered and (noindex or _has_join(ea) or _has_renumbering(ea))
+    if unordered:
+        # after a disk shuffle the row order inside a partition is unspecified, hence also which rows a later
+        # positional repartition puts where: compare the collection as a whole (sorted)
+        def whole(parts):
+            parts = [p.to_series().reset_index(drop=True) if isinstance(p, pd.Index) else p for p in parts]
+            return pd.concat(parts) if parts and all(isinstance(x, (pd.DataFrame, pd.Series)) for x in parts) else None
+
+        wa, wb = whole(ra[1]), whole(rb[1])
+        index_result = bool(ra[1]) and all(isinstance(x, pd.Index) for x in ra[1])
+        if wa is not None and wb is not None:
+            if not e2e.same(wa, wb, sort_rows=True, drop_index=noindex or index_result):
+                return f"collection differs: unfused={e2e.describe(wa, 8)!r:.200} fused={e2e.describe(wb, 8)!r:.200}"
+            return None
     for i, (x, y) in enumerate(zip(ra[1], rb[1])):
         if not e2e.same(x, y, sort_rows=unordered, drop_index=noindex):
             return (f"partition {i} differs{' [' + hz + ']' if hz else ''}: "
@@ -899,7 +927,7 @@ def _cases(ctx, broken):
     idx = list(range(len(progs)))
     if ctx.quick:
         rng.shuffle(idx)
-        idx = idx[:180]
+        idx = idx[:240]
     for j, i in enumerate(idx):
         lay = layouts[j % len(layouts)]
         for cl, cr in [lay]:
@@ -935,6 +963,7 @@ def _safe_run(case):
 
 def support(ctx, broken):
     sup = Support()
+    per_sig = {}
     cases = _cases(ctx, broken)
     if ctx.quick:
         results = ((c, _safe_run(c)) for c in cases)
@@ -954,9 +983,12 @@ def support(ctx, broken):
                 sig = {"kind": case["kind"], "what": msg.split(":")[0].split(" [")[0][:40]}
                 if "[" in msg.split(":")[0]:
                     sig["structure"] = msg.split("[")[1].split("]")[0]
-                sup.failures.append(Failure(sig=sig, case=case, detail=msg))
-                if len(sup.failures) >= 5:
-                    break
+                # keep searching: at most two failures per signature are reported (a known finding must not
+                # stop the search for other failures)
+                k = json.dumps(sig, sort_keys=True)
+                per_sig[k] = per_sig.get(k, 0) + 1
+                if per_sig[k] <= 2:
+                    sup.failures.append(Failure(sig=sig, case=case, detail=msg))
     finally:
         if pool is not None:
             pool.terminate()
